@@ -4,7 +4,7 @@ from fractions import Fraction as F
 from symx import core, stubs
 from symx.core import is_sym, ssum
 from symx.stubs import facade, shadow, fork_isclose
-from harness.common import (Shape, curated_shapes, proper_shapes, build_mdp, sym_rewards, implicit_absorbing,
+from harness.common import (Shape, curated_shapes, proper_shapes, generated_shapes, build_mdp, sym_rewards, implicit_absorbing,
                             bellman_optimal, policy_value)
 
 PROPERTY = 'C01'
@@ -30,14 +30,16 @@ OUTSIDE = ['more sweeps than the unrolling bound K (paths that hit the cap are c
            'state counts above the bound', 'symbolic transition probabilities', 'floating-point rounding']
 
 SHAPES = curated_shapes()
+NCUR = len(SHAPES)
+SHAPES = SHAPES + generated_shapes(60, smax=3, amax=3)      # thorough tier only (indices >= NCUR)
 PROPER = proper_shapes()
 GAMMAS = [F(1, 2), F(9, 10)]
 MERGE_PI = True
 
 
 def bounds(tier):
-    return dict(shapes=[s.name for s in SHAPES] + [s.name for s in PROPER], states='1..3 (4 for one goal-reaching shape)',
-                actions='1..2', gammas=['1/2', '9/10', '1'], vi_sweeps=(5 if tier == 'quick' else 12),
+    return dict(shapes=[s.name for s in SHAPES[:NCUR]] + [s.name for s in PROPER] + ([f'{len(SHAPES) - NCUR} generated skeletons (2-3 states, 1-3 actions)'] if tier != 'quick' else []),
+                states='1..3 (4 for one goal-reaching shape)', actions='1..2 (3 in generated skeletons)', gammas=['1/2', '9/10', '1'], vi_sweeps=(5 if tier == 'quick' else 12),
                 pi_rounds='|A|^S + 1', rewards='[-1,1] symbolic ([-1,0] at gamma=1)', residual='(0,1] symbolic')
 
 
@@ -575,7 +577,13 @@ def jobs(tier):
     o = dict(timeout_ms=60000, budget_s=600 if quick else 3000, max_paths=6000)
     gam = [F(1, 2), F(9, 10)]
     dense = {4, 5}
-    for i, sh in enumerate(SHAPES):
+    if not quick:
+        for i in range(NCUR, len(SHAPES)):
+            yield ('vi_step', dict(shape=i, gamma='9/10'), o)
+            yield ('vi_discounted', dict(shape=i, gamma='1/2', version='vectorized', K=4), o)
+            yield ('vi_discounted', dict(shape=i, gamma='1/2', version='dict', K=3), o)
+            yield ('pi_discounted', dict(shape=i, gamma='1/2'), dict(o, cost=5))
+    for i, sh in enumerate(SHAPES[:NCUR]):
         for g in gam:
             gs = str(g)
             yield ('vi_step', dict(shape=i, gamma=gs), o)
@@ -603,7 +611,7 @@ def jobs(tier):
     yield ('vi_discounted', dict(shape=3, gamma='1/2', version='vectorized', K=4, lab='str'), o)
     yield ('vi_discounted', dict(shape=3, gamma='1/2', version='dict', K=3, lab='mixed'), o)
     yield ('pi_discounted', dict(shape=3, gamma='1/2', lab='str'), o)
-    for i in ([1, 3] if quick else range(len(SHAPES))):
+    for i in ([1, 3] if quick else range(NCUR)):
         yield ('vi_discounted', dict(shape=i, gamma='1/2', version='vectorized', K=4, warm=True), o)
         yield ('vi_discounted', dict(shape=i, gamma='1/2', version='dict', K=3, warm=True), o)
         yield ('pi_discounted', dict(shape=i, gamma='1/2', warm=True), o)
